@@ -38,83 +38,102 @@ def _register_function(ctx: Ctx, v: Verifier, target: str, kind: str = "P") -> N
         ctx.note(f"contract target {target} not found in the current source: {e}")
 
 
-def report_obligation(ctx: Ctx, v: Verifier, o: Obl, target: Optional[str]) -> None:
-    """maps one pyvc obligation onto the report (DESIGN §2.10)"""
+def _decide(v: Verifier, o: Obl, target: Optional[str]) -> Dict[str, Any]:
+    """turns a pyvc obligation into a plain record; a counter-model is concretised and replayed on the real code"""
+    rec: Dict[str, Any] = {"name": o.name, "status": o.status, "paths": o.paths, "seconds": o.seconds,
+                           "detail": o.detail, "witness": None, "replayed": False, "solver_output": o.solver_output,
+                           "target": target}
+    if o.status != "violated":
+        return rec
     c = REGISTRY.get(target) if target else None
-    if o.status == "discharged":
-        ctx.obligation(o.name, "discharged", seconds=o.seconds, paths=o.paths, detail=o.detail or None)
-        return
-    if o.status == "undecided":
-        ctx.obligation(o.name, "undecided", seconds=o.seconds, paths=o.paths, detail=o.detail)
-        return
-    # violated: try to replay the counter-model on the real code
-    witness = None
-    replayed = False
-    msg = o.detail
-    if c is not None:
-        witness = v.concretize(c, o)
-        if witness is not None and all(x is not None for x in witness.values()):
-            try:
-                bad, rmsg = replay_obligation(c, o.name, witness)
-            except BaseException as e:  # noqa
-                bad, rmsg = None, f"replay failed: {type(e).__name__}: {e}"
-            if bad is True:
-                replayed = True
-                msg = f"{o.detail}; replay on the real code: {rmsg}"
-            elif bad is False:
-                # the real code satisfies the contract on the counter-model: the encoding was imprecise there
-                ctx.obligation(o.name, "undecided", seconds=o.seconds, paths=o.paths,
-                               detail=f"counter-model refuted by replay on the real code ({rmsg}); encoder imprecision")
-                return
-            else:
-                msg = f"{o.detail}; {rmsg}"
+    witness = v.concretize(c if c is not None else type("C", (), {"concretize": None})(), o)
+    if witness is not None and c is not None and all(x is not None for x in witness.values()):
+        try:
+            bad, rmsg = replay_obligation(c, o.name, witness)
+        except BaseException as e:  # noqa
+            bad, rmsg = None, f"replay failed: {type(e).__name__}: {e}"
+        if bad is True:
+            rec["replayed"] = True
+            rec["detail"] = f"{o.detail}; replay on the real code: {rmsg}"
+        elif bad is False:
+            rec["status"] = "undecided"
+            rec["detail"] = f"counter-model refuted by replay on the real code ({rmsg}); encoder imprecision"
         else:
-            witness = None
-    ctx.obligation(o.name, "violated", seconds=o.seconds, paths=o.paths, detail=msg)
-    ctx.violation(o.name, msg, witness=_jsonable(witness) if witness is not None else None, replayed=replayed,
-                  signature=f"{o.name}|{json.dumps(_jsonable(witness), sort_keys=True, default=repr)[:200]}",
-                  solver_output=o.solver_output,
-                  replay_code=(f"./vcheck replay <this file>   # re-runs {target} on the witness" if replayed else None))
-    if ctx.violations and witness is not None:
-        ctx.violations[-1]["target"] = target
+            rec["detail"] = f"{o.detail}; {rmsg}"
+    rec["witness"] = _jsonable(witness) if witness is not None else None
+    return rec
 
 
-def prove(ctx: Ctx, targets: Sequence[str], kind: str = "P") -> None:
+def report_record(ctx: Ctx, rec: Dict[str, Any]) -> None:
+    st = rec["status"]
+    ctx.obligation(rec["name"], st, seconds=rec["seconds"], paths=rec["paths"], detail=rec["detail"] or None)
+    if st == "violated":
+        w = rec["witness"]
+        ctx.violation(rec["name"], rec["detail"], witness=w, replayed=rec["replayed"],
+                      signature=f"{rec['name']}|{json.dumps(w, sort_keys=True, default=repr)[:200]}",
+                      solver_output=rec["solver_output"],
+                      replay_code=f"target={rec['target']}")
+
+
+def _worker(job) -> Dict[str, Any]:
+    import logging
+    logging.disable(logging.CRITICAL)
+    target, prop = job
     v = verifier()
+    t0 = time.time()
+    obls = v.verify(target, only=REGISTRY[target].clauses_for(prop))
+    recs = [_decide(v, o, target) for o in obls]
+    return {"target": target, "records": recs, "assumed": sorted(getattr(v.ex, "assumed_used", ())),
+            "inlined": sorted(v.ex.inlined_seen), "seconds": time.time() - t0,
+            "unknown_calls": sorted(getattr(v.ex, "unknown_calls", ()))}
+
+
+def _lemma_worker(key: str) -> Dict[str, Any]:
+    v = verifier()
+    o = v.verify_lemma(key)
+    rec = _decide(v, o, None)
+    if rec["status"] == "violated":
+        rec["detail"] += " (lemma over the contracts; counter-model of the solver attached)"
+    return rec
+
+
+def _pool_map(fn, items: Sequence[Any]) -> List[Any]:
+    import multiprocessing as mp
+    items = list(items)
+    if len(items) <= 1:
+        return [fn(x) for x in items]
+    load_sidecars()
+    with mp.get_context("fork").Pool(min(16, len(items))) as pool:
+        return pool.map(fn, items, chunksize=1)
+
+
+def prove(ctx: Ctx, targets: Sequence[str], kind: str = "P", by_property: bool = True) -> None:
+    load_sidecars()
     for t in targets:
         if t not in REGISTRY:
             raise RuntimeError(f"no contract registered for {t}")
+    v = verifier()
+    for t in targets:
         _register_function(ctx, v, t, kind)
-        obls = v.verify(t)
-        if not obls:
-            raise RuntimeError(f"zero obligations generated for {t}: checker error")
-        for o in obls:
-            report_obligation(ctx, v, o, t)
-    for a in sorted(getattr(v.ex, "assumed_used", ())):
-        if a.startswith("A-"):
-            ctx.trust(a)
-        else:
-            ctx.assume(a)
-    for q in sorted(v.ex.inlined_seen):
-        if q.startswith("ahbicht") and q not in ctx.inlined and q not in targets:
-            ctx.inlined.append(q)
+    for res in _pool_map(_worker, [(t, ctx.prop if by_property else None) for t in targets]):
+        if not res["records"]:
+            raise RuntimeError(f"zero obligations generated for {res['target']}: checker error")
+        for rec in res["records"]:
+            report_record(ctx, rec)
+        for a in res["assumed"]:
+            ctx.trust(a) if a.startswith("A-") else ctx.assume(a)
+        for q in res["inlined"]:
+            if q.startswith("ahbicht") and q not in ctx.inlined and q not in targets:
+                ctx.inlined.append(q)
 
 
 def prove_lemmas(ctx: Ctx, module: str, names: Optional[Sequence[str]] = None) -> None:
-    v = verifier()
+    load_sidecars()
     keys = [k for k in LEMMAS if k.startswith(module + ":") and (names is None or k.split(":")[1] in names)]
     if not keys:
         raise RuntimeError(f"no lemma found in {module}: checker error")
-    for k in keys:
-        o = v.verify_lemma(k)
-        if o.status == "violated":
-            w = v.concretize(type("C", (), {"concretize": None})(), o) if o.model else None
-            ctx.obligation(o.name, "violated", seconds=o.seconds, paths=o.paths, detail=o.detail)
-            ctx.violation(o.name, f"{o.detail} (lemma over the contracts; counter-model of the solver attached)",
-                          witness=_jsonable(w), replayed=False, solver_output=o.solver_output,
-                          signature=f"{o.name}|{json.dumps(_jsonable(w), sort_keys=True, default=repr)[:200]}")
-        else:
-            ctx.obligation(o.name, o.status, seconds=o.seconds, paths=o.paths, detail=o.detail or None)
+    for rec in _pool_map(_lemma_worker, keys):
+        report_record(ctx, rec)
 
 
 def run_bounded(ctx: Ctx, prop: str) -> bool:
